@@ -1951,11 +1951,13 @@ impl<'a> Socket<'a> {
                     // Treat a zero MSS as if the option were absent, like Linux does.
                     if max_seg_size != 0 {
                         self.remote_mss = (max_seg_size as usize).max(MIN_REMOTE_MSS);
-                        self.congestion_controller
-                            .inner_mut()
-                            .set_mss(self.remote_mss);
                     }
                 }
+                // Also without the option: the controller survives `reset()` and would
+                // otherwise keep the segment size of the previous connection.
+                self.congestion_controller
+                    .inner_mut()
+                    .set_mss(self.remote_mss);
 
                 self.tuple = Some(Tuple {
                     local: IpEndpoint::new(ip_repr.dst_addr(), repr.dst_port),
@@ -2008,11 +2010,13 @@ impl<'a> Socket<'a> {
                     // Treat a zero MSS as if the option were absent, like Linux does.
                     if max_seg_size != 0 {
                         self.remote_mss = (max_seg_size as usize).max(MIN_REMOTE_MSS);
-                        self.congestion_controller
-                            .inner_mut()
-                            .set_mss(self.remote_mss);
                     }
                 }
+                // Also without the option: the controller survives `reset()` and would
+                // otherwise keep the segment size of the previous connection.
+                self.congestion_controller
+                    .inner_mut()
+                    .set_mss(self.remote_mss);
 
                 self.remote_seq_no = repr.seq_number + 1;
                 if repr.ack_number.is_some() {
